@@ -185,12 +185,12 @@ def cases(tier, seed):
             cs.append({'kind': 'wbound', 'bits': bits, 'mag': mag})
         for clip in (0.05, 0.5, 1.0, 6.0, 100.0, 1e3):
             cs.append({'kind': 'abound', 'bits': bits, 'clip': clip})
-    n = 300 if tier == 'quick' else 4000
+    n = 300 if tier == 'quick' else 12000
     for i in range(n):
         cs.append({'kind': 'wrand', 'bits': [0, 2, 3, 4, 5, 6, 7, 8][i % 8], 'seed': seed * 7919 + i})
         cs.append({'kind': 'arand', 'bits': [2, 3, 4, 5, 6, 7, 8][i % 7], 'seed': seed * 7919 + i})
         cs.append({'kind': 'brand', 'seed': seed * 7919 + i})
-    for i in range(24 if tier == 'quick' else 300):
+    for i in range(24 if tier == 'quick' else 900):
         cs.append({'kind': 'insitu', 'seed': seed * 31 + i, 'i': i})
     return cs
 
